@@ -63,6 +63,10 @@ P = {
   "Histories are decided pairwise on a cloned Grid with symbolic node coordinates: for every ordered pair (op1, op2) drawn from 29 public read-only operations - op1 applied to the same grid or to another grid of the process - the solver shows that op2's result (structure and every value, as terms over the coordinates) equals op2 on a freshly built grid, that exports contain every fresh variable with the same value plus only derived variables holding the grid's own values (topology attributes naming only what the export contains), and that no module-level constant of uxarray.conventions differs from its import-time snapshot. Longer histories with symbolic arguments over the caches (plot conversions, search trees, face areas) are decided by the C15/C11/C05/C06 cache obligations.",
   "Bounds: histories of length 2 (op1; op2) - sound for longer histories only together with the cache obligations of C15/C11/C05, not an induction proof; 3 faces (4+3+3 corners) over 6 nodes away from the antimeridian; Grid.dims/sizes/coordinates/connectivity (which by design enumerate what is materialised) are observed only in their history-independent part. Outside: chunk() (dask), bounds, get_dual, numba/dask caches, JIT on/off (exercised only in replays). Stubs as C15/C11/C05; trig and products uninterpreted (values compared as terms).",
   "DESIGN.md §2 C08"),
+ "C14": (True,
+  "(i) The real decision logic of point_within_gca (incl. in_between, _decide_pole_latitude) is executed on symbolic real (lon, lat) of both endpoints and the query point, the plane test assumed satisfied; z3 shows the verdict equals exact geometry: generic arcs (incl. arcs wrapping through lon = 0, directed and undirected) - on the arc iff the longitude lies in the shorter closed interval; meridian arcs - same meridian and latitude between; arcs through a pole - on the leg of the point's own meridian between its endpoint and the pole the minor arc passes. Swapping endpoints and rotating about the polar axis are covered because the spec is symmetric and rotation-invariant and holds for all inputs. (ii) extreme_gca_latitude: the closed-form parameter is the stationary point of latitude along the chord for ALL unit endpoints (polynomial identity, z3 nlsat), the interior candidate is the chord point at that parameter, evaluated iff 0 < d < 1, and the result is the max/min over the endpoints' and the candidate's latitude (term-level data flow).",
+  "All with a 1e-6 rad margin from every decision boundary. Outside: whether float64 rounding keeps the plane test within MACHINE_EPSILON (QF_FP with ~30 multiplications, a sqrt and a division does not finish); gca_gca_intersection (no obligation in this round); value-level correctness of extreme_gca_latitude beyond the stationarity identity (the 2-parameter rational formulation did not finish in nlsat - candidates are judged by dense sampling of real arcs). Replays of pole/meridian cases are rotated into the plane y = 0 so that the float64 plane test is exactly 0.",
+  "DESIGN.md §2 C14"),
 }
 NA = {
  "C10": "Quantifies over arbitrary compositions of xarray's own operations; whether the grid survives is decided inside xarray/numpy C-level dispatch which symbolic values cannot cross, and there is no bounded uxarray kernel to encode (DESIGN.md §4).",
